@@ -36,7 +36,8 @@ def _num(c):
 
 
 # token = (type, value); types: C V F + - * / ^ ! ( ) = P EOF
-def ref_tokenize(s, keep_padding=True):
+def ref_tokenize(s, keep_padding=True, funcs=None):
+    funcs = FUNCS if funcs is None else funcs
     toks = []
     i = 0
     n = len(s)
@@ -53,7 +54,7 @@ def ref_tokenize(s, keep_padding=True):
             while j < n and _alpha(s[j]):
                 j += 1
             run = s[i:j]
-            if run in FUNCS:
+            if run in funcs:
                 toks.append(("F", run))
             else:
                 toks.extend(("V", ch) for ch in run)
